@@ -10,7 +10,7 @@ echo "| seeded change | check | exit | first violation class |" > $OUT
 echo "|---|---|---|---|" >> $OUT
 fail=0
 for d in seeded/C*/; do
-  id=$(basename $d); prop=${id%%-*}
+  id=$(basename $d); prop=$(python3 -c "import json,sys; print(json.load(open(sys.argv[1]))[\"breaks_property\"])" $d/meta.json)
   git -C /repo apply "$PWD/$d/patch.diff" || { echo "$id: patch does not apply"; fail=1; continue; }
   for c in $prop "$@"; do
     out=$(timeout 1500 ./check $c quick 2>&1); rc=$?
